@@ -12,6 +12,7 @@ from harness import clients, bind, stores
 from ref import adu, pdu, datamodel
 
 from pymodbus.exceptions import ModbusIOException
+from pymodbus.pdu import ModbusRequest
 
 PEER_MENU = ['own', 'own-exception', 'nothing', 'garbage', 'other-unit', 'stale+own', 'stale', 'other-function', 'late', 'reset', 'bad-length', 'bad-body']
 READ_MENU = ['full', 'short0', 'short1', 'short-1', 'oserror', 'eof']
@@ -67,7 +68,26 @@ def req_of(name, i=0):
         return dict(kind='req', fc=8, sub=0x0E, data=[0])               # Return Slave Message Count
     if name == 'device-information':
         return dict(kind='req', fc=0x2B, read_code=1, object_id=0)
+    if name == 'custom-unregistered':
+        # an application-defined function (0x41) sent through execute(); the application registered no response class
+        # for it and the device does not know it: the answer is exception 01
+        return dict(kind='req', fc=0x41, custom=True, body=bytes([0x00, 0x01 + (i & 0x0F)]))
     raise ValueError(name)
+
+
+class CustomRequest(ModbusRequest):
+    function_code = 0x41
+    _rtu_frame_size = 6
+
+    def __init__(self, body=b'\x00\x01', **kwargs):
+        ModbusRequest.__init__(self, **kwargs)
+        self.body = bytes(body)
+
+    def encode(self):
+        return self.body
+
+    def decode(self, data):
+        self.body = bytes(data)
 
 
 class Sim(object):
@@ -86,6 +106,8 @@ class Sim(object):
 
     # ------------------------------------------------------------------ peer
     def own_reply(self, tid, unit, m, exception=False):
+        if m.get('custom'):
+            return bytes([m['fc'] | 0x80, 1])
         if exception:
             return bytes([m['fc'] | 0x80, 2])
         if m['fc'] in datamodel.TABLE_OF:
@@ -133,7 +155,9 @@ class Sim(object):
         try:
             m = pdu.decode('req', p['pdu'])
         except Exception:   # noqa
-            return
+            if p['pdu'][:1] != b'\x41':
+                return
+            m = dict(kind='req', fc=0x41, custom=True)       # a function this device does not implement
         tid = p['tid'] if p['tid'] is not None else 0
         unit = p['unit']
         if self.mode == 'explore':
@@ -240,7 +264,7 @@ class Sim(object):
                 if hist_reuse:
                     name = spec.request          # the application's request object, executed now and again as the main call
                 m = req_of(name, i)
-                req = bind.to_obj(dict(m, unit=UNIT))
+                req = bind.to_obj(dict(m, unit=UNIT)) if not m.get('custom') else CustomRequest(m['body'], unit=UNIT)
                 reused = None
                 if hist_reuse:
                     self.reuse = (m, req)
